@@ -24,7 +24,7 @@ RULE = (
     "from_file(save(S)) gives the same solve(energy=True), rail_rep(), params(limits=True) "
     "(applicable limits) and phases() keyed by component/phase (1e-9 relative), the same "
     "PMux input order, and save(S') is the same JSON document as save(S) up to the order of "
-    "siblings. Version gate: the file with its version bumped (patch/minor/major) must be "
+    "siblings. Version gate: the file with its version bumped (patch / minor / major / pre-release of the next patch / post-release of this one) must be "
     "refused with ValueError, equal or lower versions load. Non-trivial: >= 5 kinds, a "
     "table, a non-default limit and (a mux or >= 2 sources); distinct by spec hash."
 )
@@ -136,6 +136,12 @@ def bump(ver, which):
         rel = [rel[0] + 1, 0, 0]
     elif which == "lower":
         rel = [rel[0], max(rel[1] - 1, 0), 0] if rel[1] > 0 else [max(rel[0] - 1, 0), 0, 0]
+    elif which == "rc_next":
+        return "{}.{}.{}rc1".format(rel[0], rel[1], rel[2] + 1)  # pre-release of a newer one
+    elif which == "post":
+        return "{}.{}.{}.post1".format(rel[0], rel[1], rel[2])  # post-release: newer
+    elif which == "rc_same":
+        return "{}.{}.{}rc1".format(rel[0], rel[1], rel[2])  # pre-release of this one: older
     else:
         rel = rel[:3]
     return ".".join(str(x) for x in rel[:3])
@@ -196,7 +202,7 @@ def body(case, stats):
         except Exception as e:
             raise Fail("version.exception", "version {} -> {}: {}".format(
                 doc["system"]["version"], type(e).__name__, e))
-        newer = vb in ("patch", "minor", "major")
+        newer = vb in ("patch", "minor", "major", "rc_next", "post")
         if loaded == newer:
             raise Fail("version.gate", "file version {} ({} than {}) was {}".format(
                 doc["system"]["version"], "newer" if newer else "not newer",
@@ -281,7 +287,8 @@ def _case(o):
     return st.fixed_dictionaries({
         "spec": G.systems(o),
         "indent": st.sampled_from([0, 1, 4, None]),
-        "version": st.sampled_from(["patch", "minor", "major", "same", "lower"]),
+        "version": st.sampled_from(["patch", "minor", "major", "same", "lower", "rc_next",
+                                    "post", "rc_same"]),
     })
 
 
